@@ -106,6 +106,11 @@ def check_kbuild(run: Any, texts: list[str]) -> None:
                     mout.append(["lab", it[1], it[2]])
                 else:
                     mout.append(["jmp", it[1], it[2], [canon_param(p) for p in it[3]], it[4]])
+            # the length a start label stores is source-map bookkeeping (C08, tie K-ra), not part of what C05 states
+            def nolen(items: list) -> list:
+                return [["lab", it[1], ["start"]] if it[0] == "lab" and it[2][0] == "start" else it for it in items]
+            mout, kout = nolen(mout), nolen(k["out"])
+            k = dict(k, out=kout)
             if mout != k["out"]:
                 j = next((i for i, (a, b) in enumerate(zip(mout, k["out"])) if a != b), min(len(mout), len(k["out"])))
                 diff = f"emitted items differ at position {j}: model {mout[j] if j < len(mout) else None} vs build {k['out'][j] if j < len(k['out']) else None}"
